@@ -87,6 +87,9 @@ func signLegacy(priv *PrivateKey, rand io.Reader, hash []byte) (sig []byte, err 
 	if N.Sign() == 0 {
 		return nil, errZeroParam
 	}
+	if priv.D.Cmp(new(big.Int).Sub(N, one)) >= 0 {
+		return nil, errInvalidPrivateKey
+	}
 	var k, r, s *big.Int
 	e := hashToInt(hash, c)
 	for {
